@@ -758,6 +758,8 @@ for _k, (_slot, _r, _rows, _cols) in KINDS.items():
     ALPHABET["mmf_" + _k] = [mk(_slot, _r), call("matvec", A=S(_slot), x=arr([_cols, 2], "f8", 32, layout="f"))]
     ALPHABET["rmv_" + _k] = [mk(_slot, _r), call("rmatvec", A=S(_slot), x=arr([_rows], "f8", 33))]
     ALPHABET["rmm_" + _k] = [mk(_slot, _r), call("rmatvec", A=S(_slot), x=arr([2, _rows], "f8", 34))]
+    ALPHABET["mm3_" + _k] = [mk(_slot, _r), call("matvec", A=S(_slot), x=arr([_cols, 3], "f8", 37))]
+    ALPHABET["rmm3_" + _k] = [mk(_slot, _r), call("rmatvec", A=S(_slot), x=arr([3, _rows], "f8", 38))]
 ALPHABET.update({
     "rsolve_chol": [PRE["P"], call("rsolve", A=S("P"), b=B, alg="Cholesky")],
     "rsolve_lu": [PRE["D"], call("rsolve", A=S("D"), b=arr([2, N], "f8", 35))],
@@ -776,7 +778,8 @@ ALPHABET3 = ["mk_dense", "mk_identity", "mk_generic", "mk_probe", "sum_b", "sum_
              "ann_psd", "ann_psd_over_sa", "to_f4", "matvec", "rmatvec_g", "solve_chol", "solve_cg", "solve_cg_raise",
              "use_inv_cg", "use_inv_cg_X0", "use_sqrt_B", "use_sqrt_X0", "matvec_sum_B", "matvec_sum_X0", "eig_lanczos",
              "cg_reenter", "flatten_sum", "hutch", "import_precond", "algobj_cg_probe", "algobj_cg_block_raise",
-             "algobj_cg_dense_of_inv_raise", "rsolve_chol", "rmv_inv_tri", "algobj_hutch_kron", "flatten_inv_cg", "ann_used_inv"]
+             "algobj_cg_dense_of_inv_raise", "rsolve_chol", "rmv_inv_tri", "algobj_hutch_kron", "flatten_inv_cg", "ann_used_inv", "mm3_sl", "rmm3_sl",
+             "mm3_kron", "rmm3_kron"]
 
 
 def history(letters):
@@ -805,7 +808,7 @@ def sweep_histories(maxlen, full_pairs=True, seed=0):
     for L in names:
         yield (L, )
     if maxlen >= 2:
-        two = names if full_pairs else quick_pair_alphabet(seed)
+        two = names if full_pairs else sorted(ALPHABET3)
         for a, b in itertools.product(two, two):
             yield (a, b)
     if maxlen >= 3:
@@ -847,7 +850,7 @@ def phase_sweep(run, pool, maxlen):
         "alphabet_size": len(ALPHABET), "reduced_alphabet_size": len(ALPHABET3), "max_length": maxlen, "histories": n[0],
         "exhaustive": True,
         "exhaustive_over": ("all 1-letter histories of the full alphabet, all 2-letter histories of the %s alphabet%s"
-                            % ("full" if maxlen >= 3 else "seed-rotated 32-letter sub-", ", all 3-letter histories of the reduced alphabet"
+                            % ("full" if maxlen >= 3 else "reduced", ", all 3-letter histories of the reduced alphabet"
                                if maxlen >= 3 else "")), "distinct_calls_compared_across_histories": len(table),
         "history_independence_conflicts": len(conflicts), "wall_s": round(time.time() - t, 1)}
     run.stats["sweep_histories"] += n[0]
